@@ -183,7 +183,7 @@ class RouteMessage:
     }
 
 
-@contract("mysensors:Gateway.alert", props=["C04", "C14"])
+@contract("mysensors:Gateway.alert", props=["C04", "C14", "C18"])
 class Alert:
     configs = [{"persistence": p, "callback": c} for p in (True, False) for c in (True, False)]
 
